@@ -135,6 +135,18 @@ def assign_configs(ctx, scripts):
                 sweep.append(dict(blank, op="Query", late=3))
                 sweep += [dict(st, op="Put") for st in (puts[-3:] if len(puts) >= 3 else puts + puts[:1])]
                 sweep += [dict(blank, k=k) for k in uniq]
+            # prefix sweep (every third history): every key of the key set is stored, then every cut of every key is used as
+            # a query prefix - a prefix that names a directory of the file tree while a sibling key continues its last segment
+            # (a/b next to ab, prefix a), a prefix that ends inside a segment, a whole key
+            if puts and i % 3 == 1:
+                allk = sorted(s.get("keys", []))
+                sweep += [dict(puts[-1], op="Put", k=k, m=dict(puts[-1]["m"], **{"del": False, "exp": 0, "rel": 0})) for k in allk]
+                cuts = []
+                for k in allk:
+                    for j in range(1, len(k) + 1):
+                        if k[:j] not in cuts:
+                            cuts.append(k[:j])
+                sweep += [dict(blank, op="Query", pfx=c) for c in cuts]
             s["steps"] += sweep
             s["swept"] = True
         sel = list(fast)
